@@ -9,9 +9,11 @@ import (
 	"io"
 	"os"
 	"os/exec"
+	"path/filepath"
 	"strconv"
 	"strings"
 	"sync"
+	"sync/atomic"
 	"time"
 )
 
@@ -27,6 +29,23 @@ type Solver struct {
 	Time   time.Duration
 	dead   bool
 	tmo    int
+	// cross-solver sampling (reset-mode queries only): every crossEvery-th query is also put to a
+	// second solver; sat/unsat answers must agree
+	cross      *Solver
+	crossKind  string
+	crossEvery int
+	crossStats *CrossStats
+}
+
+// CrossStats is shared by the solvers of a pool.
+type CrossStats struct {
+	mu        sync.Mutex
+	seq       int64
+	Kind      string
+	Compared  int
+	Agreed    int
+	Undecided int // the second solver answered unknown / error / timeout
+	Disagree  []string
 }
 
 func solverArgs(kind string, timeoutMs int) (string, []string) {
@@ -65,6 +84,11 @@ func NewSolver(kind string, timeoutMs int) (*Solver, error) {
 }
 
 func (s *Solver) Close() {
+	if s.cross != nil {
+		c := s.cross
+		s.cross = nil
+		c.Close()
+	}
 	if s == nil || s.dead {
 		return
 	}
@@ -96,7 +120,62 @@ func (s *Solver) Check(tb *TB, conds []*Term, wantModel bool) CheckResult {
 }
 
 func (s *Solver) checkReset(tb *TB, base, p *Printer, wantModel bool) CheckResult {
-	return s.checkText(tb, p, wantModel, "(reset)\n(set-option :produce-models true)\n"+base.String(), "")
+	r := s.checkText(tb, p, wantModel, "(reset)\n(set-option :produce-models true)\n"+base.String(), "")
+	if s.crossEvery > 0 && (r.Res == "sat" || r.Res == "unsat") && atomic.AddInt64(&s.crossStats.seq, 1)%int64(s.crossEvery) == 0 {
+		s.crossCheck(base.String()+p.String(), r.Res)
+	}
+	return r
+}
+
+func (s *Solver) crossCheck(text, res string) {
+	if s.cross == nil || s.cross.dead {
+		c, err := NewSolver(s.crossKind, 20000)
+		if err != nil {
+			return
+		}
+		s.cross = c
+	}
+	pre := "(reset)\n(set-option :produce-models true)\n"
+	if s.crossKind == "cvc5" {
+		pre = "(reset)\n(set-logic ALL)\n"
+	}
+	if _, err := io.WriteString(s.cross.stdin, pre+text+"(check-sat)\n(echo \"CHK\")\n"); err != nil {
+		s.cross.dead = true
+		return
+	}
+	lines, err := s.cross.readUntil("CHK")
+	other := "error"
+	if err == nil {
+		for _, l := range lines {
+			l = strings.TrimSpace(l)
+			if l == "sat" || l == "unsat" || l == "unknown" {
+				other = l
+			}
+		}
+		if strings.Contains(strings.Join(lines, "\n"), "(error") {
+			other = "error"
+		}
+	} else {
+		s.cross.dead = true
+	}
+	st := s.crossStats
+	st.mu.Lock()
+	defer st.mu.Unlock()
+	st.Compared++
+	switch {
+	case other == res:
+		st.Agreed++
+	case other == "sat" || other == "unsat":
+		f := filepath.Join(os.TempDir(), fmt.Sprintf("symgo-disagree-%d-%d.smt2", os.Getpid(), len(st.Disagree)))
+		if d := os.Getenv("SYMGO_DISAGREE_DIR"); d != "" {
+			os.MkdirAll(d, 0o755)
+			f = filepath.Join(d, fmt.Sprintf("disagree-%d.smt2", len(st.Disagree)))
+		}
+		os.WriteFile(f, []byte(text+"(check-sat)\n"), 0o644)
+		st.Disagree = append(st.Disagree, fmt.Sprintf("z3 4.8.12 says %s, %s says %s: %s", res, s.crossKind, other, f))
+	default:
+		st.Undecided++
+	}
 }
 
 func (s *Solver) CheckText(tb *TB, p *Printer, wantModel bool) CheckResult {
@@ -386,16 +465,27 @@ type SolverPool struct {
 	all  []*Solver
 	kind string
 	tmo  int
+	Cross      *CrossStats
+	crossEvery int
 }
 
 func NewSolverPool(kind string, timeoutMs int) *SolverPool {
 	return &SolverPool{kind: kind, tmo: timeoutMs}
 }
 
+// EnableCross: every n-th reset-mode query of every solver of the pool is also decided by a second solver.
+func (sp *SolverPool) EnableCross(kind string, every int) {
+	sp.Cross = &CrossStats{Kind: kind}
+	sp.crossEvery = every
+}
+
 func (sp *SolverPool) New() *Solver {
 	s, err := NewSolver(sp.kind, sp.tmo)
 	if err != nil {
 		panic(fmt.Sprintf("cannot start solver %s: %v", sp.kind, err))
+	}
+	if sp.Cross != nil {
+		s.crossKind, s.crossEvery, s.crossStats = sp.Cross.Kind, sp.crossEvery, sp.Cross
 	}
 	sp.mu.Lock()
 	sp.all = append(sp.all, s)
